@@ -12,8 +12,9 @@ structure CfgOK (c : Cfg) : Prop where
   W_pos : 2 ≤ c.W
   codec : TinyC.CodecOK c.codec
   /-- `compute_array_bits(e) ≥ b` (for a bitmap width `0 < b < W`) means `e` has at most `W - b` bits -/
-  cab_bound : ∀ e b, e < 2 ^ c.W → 0 < b → b ≤ c.cab e → e < 2 ^ (c.W - b)
-  cab_le : ∀ e, c.cab e ≤ c.W
+  cab_bound : ∀ e b, e < 2 ^ c.W → 0 < b → b < c.W → b ≤ c.cab e → e < 2 ^ (c.W - b)
+  cab_le : ∀ e, 2 ≤ e → c.cab e ≤ c.W
+  denseCap_pos : ∀ mx, 0 < c.denseCap mx
   /-- the grown dense block contains the word of the element that caused the growth -/
   grow : ∀ e, e >>> c.dShift < c.denseGrow e
 
